@@ -497,17 +497,17 @@ fn policy_text(t: &mut Tape, rec: &mut Rec<'_>) {
 
 fn schema_text(t: &mut Tape, rec: &mut Rec<'_>) {
     let as_json = t.coin();
-    let valid = |t: &mut Tape| {
-        let rs = s::gen_schema(t, &SchemaOpts { multi_ns: true, ..SchemaOpts::default() });
-        if as_json {
-            semit::schema_json(&rs, Some(t)).to_string()
-        } else {
-            semit::schema_cedar(&rs, Some(t))
-        }
+    // valid documents with everything the syntaxes offer: common types, annotations, names shadowing built-ins
+    let rich = |t: &mut Tape, as_json: bool| -> String {
+        let rs = s::gen_schema(t, &SchemaOpts { multi_ns: true, shadow: true, ..SchemaOpts::default() });
+        let commons = crate::props::c09::gen_commons(t, &rs);
+        let salt = t.upto(1 << 16) as u32;
+        semit::with_annotations(salt, || semit::with_commons(&commons, || if as_json { semit::schema_json(&rs, Some(t)).to_string() } else { semit::schema_cedar(&rs, Some(t)) }))
     };
+    let valid = |t: &mut Tape| rich(t, as_json);
     let (s, kind) = if as_json && t.bool_p(2, 3) {
-        let rs = s::gen_schema(t, &SchemaOpts { multi_ns: true, ..SchemaOpts::default() });
-        let m = mutate_json(t, &semit::schema_json(&rs, None));
+        let doc: J = serde_json::from_str(&rich(t, true)).unwrap_or(J::Null);
+        let m = mutate_json(t, &doc);
         (if json_depth_ok(&m, 0) { m.to_string() } else { "{}".to_string() }, "mutated-json")
     } else {
         input_text(t, &SCHEMA_TOKENS, &valid)
